@@ -30,7 +30,7 @@ def run(tier):
     for D, ext, bases in plan:
         name = "c17_arr_d%d" % D
         cfg = os.path.join(wd, name + ".cfg")
-        c = {"SD": D, "SMaxExt": ext, "SBases": vlib.Sub(bases), "Priors": {"empty", "same", "other"}, "SEmit": True}
+        c = {"SD": D, "SMaxExt": ext, "SBases": vlib.Sub(bases), "Priors": {"empty", "same", "other", "shifted", "reshaped"}, "SEmit": True}
         vlib.write_cfg(cfg, spec="SSpec", constants=c, invariants=["RoundTrip"], constraints=["SEmitC"])
         res = vlib.run_tlc("Serialization", cfg, name)
         rep.add_tlc(res)
